@@ -289,6 +289,23 @@ def engine_projection(ctx, results, what_checks):
             extra = [p for p in ci if not covered(p, cm)]
             if extra:
                 probs.append(f"code outside the rewritten fragments changed at {fmt_paths(extra)}")
+            # a rewritten statement / element list: the elements before and after the rewritten run
+            # (those the specification keeps from the original list) must be kept by the implementation too
+            for p in cm:
+                o, m, i = subtree(orig["tree"], p), subtree(model["tree"], p), subtree(impl["tree"], p)
+                if not (isinstance(o, list) and isinstance(m, list) and isinstance(i, list) and o[:1] == ["L"] and m[:1] == ["L"] and i[:1] == ["L"]):
+                    continue
+                oe, me, ie = o[2:], m[2:], i[2:]
+                a = 0
+                while a < len(oe) and a < len(me) and oe[a] == me[a]:
+                    a += 1
+                b = 0
+                while b < len(oe) - a and b < len(me) - a and oe[len(oe) - 1 - b] == me[len(me) - 1 - b]:
+                    b += 1
+                if ie[:a] != oe[:a] or (b > 0 and ie[len(ie) - b:] != oe[len(oe) - b:]):
+                    probs.append(f"list at {'.'.join(map(str, p))}: the elements around the rewritten run are not the original ones "
+                                 f"({a} leading and {b} trailing elements should have been kept)")
+                    break
             if impl.get("pkg") != model.get("pkg"):
                 probs.append(f"package clause differs: {impl.get('pkg')} vs {model.get('pkg')}")
         if "imports" in what_checks and impl["status"] == "ok" and model["status"] == "ok":
@@ -486,26 +503,39 @@ def compare_run(root, opts, infos, pred, obs):
     exp_chunks = [o for o in pred["outs"] if o[0] == "o"]
     so = obs["stdout"].decode("utf-8", "surrogateescape")
     if "diff" in opts:
-        got = split_diff(so)
-        want = {}
-        order = []
-        rest = so
-        for o in exp_chunks:
-            if o[1].startswith("\x00DIFF\x00"):
-                _, _, name, bytes_ = o[1].split("\x00", 3)
-                want[name] = bytes_
-                order.append(name)
-        if sorted(got) != sorted(want):
-            probs["stdout"].append(f"--diff printed diffs for {sorted(got)} but the patched files are {sorted(want)}")
+        # walk through stdout following the predicted sequence: plain chunks (echoed unmatched files with
+        # --print-only, verbose log lines) must be there verbatim; a diff chunk extends to the next plain chunk
+        by_prov = {i["provided"]: i for i in infos}
+        pos = 0
+        for k, o in enumerate(exp_chunks):
+            if not o[1].startswith("\x00DIFF\x00"):
+                if not so.startswith(o[1], pos):
+                    probs["stdout"].append(f"stdout differs from the prediction at byte {pos} (expected {o[1][:60]!r})")
+                    break
+                pos += len(o[1])
+                continue
+            _, _, name, bytes_ = o[1].split("\x00", 3)
+            hdr = f"--- {name}\n+++ {name}\n"
+            if not so.startswith(hdr, pos):
+                probs["stdout"].append(f"--diff: no diff for the patched file {name} where it is expected")
+                break
+            nxt = len(so)
+            for o2 in exp_chunks[k + 1:]:
+                probe = (f"--- " + o2[1].split("\x00", 3)[2] + "\n+++ ") if o2[1].startswith("\x00DIFF\x00") else o2[1]
+                if probe:
+                    f_ = so.find(probe, pos + len(hdr))
+                    if f_ >= 0:
+                        nxt = f_
+                    break
+            body = so[pos:nxt]
+            pos = nxt
+            orig = by_prov[name]["content"].decode("utf-8", "surrogateescape")
+            res = cl.apply_unified_diff(orig, body)
+            if res is None or res.rstrip("\n") != bytes_.rstrip("\n"):
+                probs["stdout"].append(f"{name}: applying the printed diff to the original does not give the bytes --print-only prints")
         else:
-            by_prov = {i["provided"]: i for i in infos}
-            for name, bytes_ in want.items():
-                orig = by_prov[name]["content"].decode("utf-8", "surrogateescape")
-                # drop verbose log lines that follow the diff body
-                body = "\n".join(l for l in got[name].split("\n") if not re.match(r"^(generated file )?/.*: (skipped|patched|failed.*)$", l))
-                res = cl.apply_unified_diff(orig, body)
-                if res is None or res.rstrip("\n") != bytes_.rstrip("\n"):
-                    probs["stdout"].append(f"{name}: applying the printed diff to the original does not give the bytes --print-only prints")
+            if so[pos:].strip():
+                probs["stdout"].append(f"unexpected extra output on stdout: {so[pos:pos+80]!r}")
     else:
         want = "".join(o[1] for o in exp_chunks)
         if so != want:
@@ -644,7 +674,8 @@ def c06(ctx):
 @prop("C12")
 def c12(ctx):
     cli_family(ctx, {"odd", "generated"},
-               [[], ["print"], ["diff"], ["diff", "v"], ["print", "si"], ["diff", "sg"], ["si"], ["print", "sg", "si"], ["v"]],
+               [[], ["print"], ["diff"], ["diff", "v"], ["print", "si"], ["diff", "sg"], ["si"], ["print", "sg", "si"], ["v"],
+                ["diff", "print"], ["diff", "print", "v", "sg"], ["diff", "print", "si"]],
                {"write", "stdout", "desc"}, 25, 500)
 
 def matching_cases(ctx, cases, want, rng):
